@@ -123,7 +123,8 @@ def check_C06(run):
     th = run.tier == "thorough"
     P = pool_for(run)
     run.cov["rule"] = ("positions reached by play-outs (incl. null moves) from standard, Chess960 and double-Chess960 starts and from "
-                       "templates with an inner castling rook: FEN printed by the engine is parsed back and every field compared "
+                       "templates with an inner castling rook, and with half-move clocks / full-move numbers at and beyond 100, 2^7, 2^8, 2^15, 2^16 (given and "
+                       "reached by play): FEN printed by the engine is parsed back and every field compared "
                        "(placement, turn, rights and their rook files, ep, clocks, key); canonical X-FEN strings written by an "
                        "independent printer from the abstract position must be reproduced verbatim by parse+print; non-trivial = "
                        "castling rights present or ep state or clocks > 0")
@@ -141,6 +142,23 @@ def check_C06(run):
     for f in inner + [G.mirror_fen(x) for x in inner]:
         reqs.append(f"rt\t1\t{f}\t")
         reqs.append(f"rt\t0\t{f}\t")
+    # counters at and beyond every narrow integer width: given in the FEN, and reached by play from just below
+    def with_counters(fen, hm, fm):
+        p = fen.split(" ")
+        if p[3] != "-":
+            hm = 0          # an en-passant square implies a pawn has just moved
+        p[4], p[5] = str(hm), str(fm)
+        return " ".join(p)
+    big = [99, 100, 101, 127, 128, 254, 255, 256, 257, 300, 1000, 32767, 32768, 65535, 65536, 1000000, 2147483646]
+    cpool = [e["fen"] for e in P["pool"]]
+    for _ in range(300 if th else 60):
+        f = with_counters(rng.choice(cpool), rng.choice(big), rng.choice(big + [1, 2, 50]))
+        reqs.append(f"rt\t{rng.choice('01')}\t{f}\t")
+    for g in games[: (200 if th else 40)]:
+        toks = g["moves"].split(" ")
+        k = rng.randrange(1, min(len(toks), 6) + 1)
+        f = with_counters(g["start"], rng.choice([98, 126, 253, 254, 255, 65534]), rng.choice([127, 254, 255, 32767, 65535]))
+        reqs.append(f"rt\t{rng.choice('01')}\t{f}\t{' '.join(toks[:k])}")
     impl, _ = vlib.run_impl_par(reqs)
     model = vlib.run_model_par(reqs)
     nv = 0
@@ -204,7 +222,7 @@ def check_C07(run):
     P = pool_for(run)
     run.cov["rule"] = ("strings: canonical FENs of pool positions (KQkq and file-letter castling), and a malformed stream (truncation, "
                        "substitution, insertion, deletion, field swaps, over-long boards incl. 64+256k squares, ep squares around the u8 "
-                       "wrap, signed/overflowing counters, duplicated or unknown castling letters, multi-byte characters); optimised "
+                       "wrap and every printable byte in either position of a valid ep field, signed/overflowing counters, duplicated or unknown castling letters, multi-byte characters); optimised "
                        "build vs the Wrapping model and checked build vs the Checked model: accept/reject and every field; every "
                        "accepted position is re-examined by the executable Valid; non-trivial = malformed or wrap-relevant string")
     fens = [e["fen"] for e in P["pool"]]
@@ -262,8 +280,24 @@ def check_C07(run):
             letters.append(rng.choice("KQkq" + "ABCDEFGH" + "abcdefgh"))
         cas = "".join(dict.fromkeys(letters))
         sem.append(G.fen_of(b, rng.choice("wb"), cas, "-", rng.randrange(0, 30), rng.randrange(1, 60)))
+    # en-passant field aliases: on FENs whose en-passant state is valid, every printable byte in the rank position (and in the file
+    # position) of the ep field -- squares that differ from the right one by a multiple of 8 ranks / files after u8 arithmetic
+    epf = [f for f in fens if f.split(" ")[3] != "-"]
+    rng.shuffle(epf)
+    epf = epf[: (24 if th else 6)] + ["4k3/8/8/p7/8/8/8/4K3 w - a6 0 1", "4k3/8/8/8/P7/8/8/4K3 b - a3 0 1", "4k3/8/8/pP6/8/8/8/4K3 w - a6 0 1",
+                                      "4k3/8/8/7p/8/8/8/4K3 w - h6 0 2", "rnbqkbnr/pppp1ppp/8/4p3/4P3/8/PPPP1PPP/RNBQKBNR w KQkq e6 0 2"]
+    alias = []
+    for f in epf:
+        pp = f.split(" ")
+        for code in range(33, 127):
+            for pos_ in (0, 1):
+                e = list(pp[3])
+                if chr(code) == e[pos_]:
+                    continue
+                e[pos_] = chr(code)
+                alias.append(" ".join(pp[:3] + ["".join(e)] + pp[4:]))
     bad = G.fen_mutants(rng, good + shred, 6000 if th else 900)
-    strings = [(s, "canonical") for s in good] + [(s, "shredder") for s in shred] + [(s, "special") for s in special] + [(s, "mutant") for s in bad] + [(s, "castle-semantic") for s in sem]
+    strings = [(s, "ep-alias") for s in alias] + [(s, "canonical") for s in good] + [(s, "shredder") for s in shred] + [(s, "special") for s in special] + [(s, "mutant") for s in bad] + [(s, "castle-semantic") for s in sem]
     strings = [(s, c) for s, c in strings if "\t" not in s and "\n" not in s and all(not (0xD800 <= ord(ch) <= 0xDFFF) for ch in s)]
     enc = lambda s: " ".join(str(ord(ch)) for ch in s)
     nv = 0
@@ -449,7 +483,29 @@ def check_C09(run):
                 run.violation("parse-back", f"through the command loop: printed move(s) {bad[:6]} are not accepted when fed back",
                               {"script": ["uci"] + head(c[0], c[1], c[2], str(bad[0])) + ["print"],
                                "repro": "printf 'uci\\n" + "\\n".join(head(c[0], c[1], c[2], str(bad[0])) + ["print"]) + "\\n' | " + rel})
-    run.cov["traces_validated_against_impl"] = len(reqs) + len(r2) + len(pl)
+    # the notation follows the option at the moment of printing: UCI_Chess960 switched after `position`, then `go split 1`;
+    # the printed strings must be exactly the rules' strings for the mode in force
+    tfens = ["r3k2r/8/8/8/8/8/8/R3K2R w KQkq - 0 1", "r3k2r/8/8/8/8/8/8/R3K2R b KQkq - 0 1", "r3k2r/pppq1ppp/2n2n2/2bpp3/2BPP3/2N2N2/PPPQ1PPP/R3K2R w KQkq - 6 8"]
+    tfens += [m[1] for m in rng.sample([x for x in meta if std_geometry(x[1]) and x[1].split(" ")[2] != "-"] or meta, 4 if th else 2)]
+    tj = []
+    for f in tfens:
+        for first, then in (("0", "1"), ("1", "0")):
+            sc = (["setoption name UCI_Chess960 value true"] if first == "1" else []) + ["isready", "position fen " + f,
+                  f"setoption name UCI_Chess960 value {'true' if then == '1' else 'false'}", "go split 1", "quit"]
+            tj.append((f, then, sc))
+    tres = vlib.par_map(lambda j: props_proc.run_engine(rel, j[2], timeout=60), tj)
+    tspec = vlib.run_model_par([f"ucispec\t{then}\t{f}" for f, then, _ in tj])
+    for (f, then, sc), (out, err, rc, to), sp_ in zip(tj, tres, tspec):
+        run.note_case(("toggle",) + tuple(sc), "process-level", nontrivial=True)
+        want = sorted(it.split(":")[1] for it in sp_.split(",")) if sp_ and not sp_.startswith("ERROR") else []
+        printed = sorted(l.split(" ")[0] for l in out.split("\n") if _re.match(r"^[a-h][1-8][a-h][1-8][nbrq]? \d+$", l))
+        if to or rc != 0 or printed != want:
+            nv += 1
+            if nv <= 25:
+                diff = sorted(set(printed) ^ set(want))
+                run.violation("move-notation", f"after switching UCI_Chess960 {'on' if then == '1' else 'off'} the printed moves differ from the notation in force: {diff[:8]}",
+                              {"script": ["uci"] + sc, "printed": printed, "rules": want, "repro": "printf 'uci\\n" + "\\n".join(sc) + "\\n' | " + rel})
+    run.cov["traces_validated_against_impl"] = len(reqs) + len(r2) + len(pl) + len(tj)
     run.sample({"request": reqs[0], "implementation": impl[0][:300]})
     run.cov["explanation"] = ("square-name injectivity and promotion-letter lemmas proved; shape/injectivity/round-trip on all legal moves checked above, "
                               "also through the binary's command loop with `position startpos` and `position fen` in both modes")
@@ -459,8 +515,8 @@ def check_C05(run):
     rng = run.rng
     th = run.tier == "thorough"
     P = pool_for(run)
-    run.cov["rule"] = ("`position (startpos | fen F) moves t1..tn` on F from the pool (standard geometry with UCI_Chess960 off, any with it "
-                       "on): tokens are legal moves in the active notation, in the other notation, conventional castling strings (legal and "
+    run.cov["rule"] = ("`position (startpos | fen F) moves t1..tn` on F from the pool, UCI_Chess960 on and off (off also on Chess960 / double-Chess960 "
+                       "geometry, incl. castling rooks on different files for the two sides, as long as no two legal moves are written alike): tokens are legal moves in the active notation, in the other notation, conventional castling strings (legal and "
                        "not, right and wrong side to move), illegal and garbage tokens; final position vs the specification's reading of "
                        "the token list, one key per position reached, unknown-move diagnostics exactly for the tokens that denote nothing; "
                        "non-trivial = at least one token is not a plain legal move")
@@ -471,12 +527,13 @@ def check_C05(run):
     for _ in range(1500 if th else 250):
         e = rng.choice(pool)
         frc = rng.choice("01")
-        if frc == "0" and not std_geometry(e["fen"]):
-            frc = "1"
+        if frc == "0" and not std_geometry(e["fen"]) and rng.random() < 0.5:
+            frc = "1"       # the other half: standard notation on Chess960 / double-Chess960 geometry (dropped below when a string is ambiguous)
         n = rng.randrange(0, 10)
         reqs.append((frc, e["fen"], n, rng.randrange(1 << 30)))
     # build token lists by walking with the specification side (ucispec gives every legal move's string in both modes)
     built = []
+    ambiguous = set()
     cur = [(frc, fen, fen, [], n, sd) for frc, fen, n, sd in reqs]
     import random as _r
     for step in range(10):
@@ -491,6 +548,8 @@ def check_C05(run):
             rr = _r.Random(c[5] + step)
             items = [it.split(":") for it in a.split(",")] if a and not a.startswith("ERROR") else []
             other = [it.split(":")[1] for it in b.split(",")] if b and not b.startswith("ERROR") else []
+            if c[0] == "0" and len(set(st for _, st in items)) != len(items):
+                ambiguous.add((c[1], c[5]))      # two legal moves are written alike in standard notation here: outside what the notation can express
             roll = rr.random()
             if items and roll < 0.6:
                 trip, st = rr.choice(items)
@@ -533,7 +592,24 @@ def check_C05(run):
             fen = G.mirror_fen(fen)
             toks = [f"{G.FILES[bkf]}{8 - bkr}{G.FILES[nbk]}{8 - bkr}"] + [flip_tok(t) for t in toks]
         extra.append((rng.choice("01"), fen, fen, toks, 0, 0))
+    # castling rooks on different files for the two sides (double Chess960, X-FEN mid-game), standard notation: every legal move's
+    # own string, one token per case, both colours
+    asym = ["3k2r1/8/8/8/8/8/8/4K2R b Kk - 0 1", "r1k3r1/pppppppp/8/8/8/8/PPPPPPPP/2KR2R1 b kq - 4 5", "2rk3r/2p5/8/8/8/8/8/RKR5 b KQkq - 0 1",
+            "1r1k2r1/8/8/8/8/8/8/R3K2R b KQgb - 0 1", "r2k3r/8/8/8/8/8/8/1R2K1R1 w GBha - 0 1", "rk5r/8/8/8/8/8/8/R5KR w HAha - 2 3"]
+    asym = asym + [G.mirror_fen(f) for f in asym]
+    okA = vlib.run_model_par([f"inD\t{f}" for f in asym])
+    asym = [f for f, o in zip(asym, okA) if o == "1"]
+    strsA = vlib.run_model_par([f"ucispec\t0\t{f}" for f in asym])
+    for f, o in zip(asym, strsA):
+        strs = [it.split(":")[1] for it in o.split(",")] if o and not o.startswith("ERROR") else []
+        if len(set(strs)) != len(strs):
+            continue
+        kingrow = "1" if f.split(" ")[1] == "w" else "8"
+        for st in strs:
+            if st[1] == kingrow and st[3] == kingrow:
+                extra.append(("0", f, f, [st, rng.choice(strs)], 0, 0))
     okf = vlib.run_model_par([f"inD\t{e[1]}" for e in extra])
+    cur = [c for c in cur if (c[1], c[5]) not in ambiguous]
     cur = cur + [e for e, o in zip(extra, okf) if o == "1"]
     rq, rs = [], []
     for c in cur:
@@ -734,7 +810,7 @@ def check_C18(run):
                        "vs a dictionary specification (last value stored per slot since the last clear, truncated by resize); the "
                        "TTEntry instantiation is exercised by every search check; boundary sequences on both Hashtable<u64> and "
                        "Hashtable<TTEntry> (sizes 1..16 MB): slots 0..1001 filled then the fill indicator, stores in the last slots "
-                       "then clear / shrink / grow; non-trivial = sequence contains a resize or clear after a store")
+                       "then clear / shrink / grow; the maximal size 4096 MB (slot count, last slot, shrink); non-trivial = sequence contains a resize or clear after a store")
     seqs = []
     for _ in range(400 if th else 60):
         ops = []
@@ -821,6 +897,25 @@ def check_C18(run):
         elif a != b:
             nv += 1
             run.violation("model-mismatch", "outputs differ from the model's", {"element_size": es, "operations": s, "implementation": a[:300], "model": b[:300]}, found_input=False)
+    # the largest sizes the engine advertises (Hash max 4096): slot count = bytes / element size, no 32-bit wrap; one process at a
+    # time (4 GB), implementation against the arithmetic of the specification only (the model does not allocate such tables)
+    large = [(24, 4096), (8, 4096)] + ([(24, 4095), (24, 2048), (8, 2049)] if th else [])
+    for es, mb in large:
+        ln = mb * 1024 * 1024 // es
+        sq_ = f"r:{mb} l a:{ln - 1}:7 p:{ln - 1} p:{2 * ln - 1} a:{ln}:9 p:0 h r:1 l p:0"
+        out, _ = vlib.run_impl([f"tt\t{es}\t{sq_}"])
+        run.note_case((es, sq_), "large", nontrivial=True)
+        got = out[0].split(" | ")[0].split(" ")
+        want = ["r", str(ln), "a", "7", "7", "a", "9", "1", "r", str(1024 * 1024 // es), "9"]
+        if out[0].startswith("DIED"):
+            run.cov["classes"]["large-inconclusive(process killed)"] = run.cov["classes"].get("large-inconclusive(process killed)", 0) + 1
+        elif got != want:
+            nv += 1
+            k = next((i for i, (x, y) in enumerate(zip(got, want)) if x != y), 0)
+            run.violation("table-semantics", f"element size {es}, {mb} MB: operation #{k + 1} ({sq_.split(' ')[k]}) answered {got[k] if k < len(got) else '?'}, expected {want[k]} "
+                          f"(a table of {mb} MB must have {ln} slots)",
+                          {"element_size": es, "operations": sq_, "implementation": got, "specification": want,
+                           "repro": "printf 'tt\\t" + str(es) + "\\t" + sq_ + "\\n' | .build/cargo/release/rawr_harness /dev/stdout"})
     impl, _ = vlib.run_impl_par(reqs)
     model = vlib.run_model_par(reqs)
     for s, a, b in zip(seqs, impl, model):
